@@ -106,6 +106,13 @@ type ReplayFile struct {
 	Note      string              `json:"note,omitempty"`
 }
 
+func envStr(name, def string) string {
+	if v := os.Getenv(name); v != "" {
+		return v
+	}
+	return def
+}
+
 func envInt(name string, def int) int {
 	if v := os.Getenv(name); v != "" {
 		if i, err := strconv.Atoi(v); err == nil {
@@ -212,6 +219,31 @@ func Worker(t *testing.T) {
 		return
 	case "detdiff":
 		detDiff(t, p)
+		return
+	case "oneseed":
+		// run exactly the scenario generated from VERIF_RUNSEED (debugging aid)
+		runSeed := envU64("VERIF_RUNSEED", 1)
+		findings := loadFindings(os.Getenv("VERIF_FINDINGS"), propID)
+		setOpenTriggers(findings)
+		sc := p.Gen(NewRand(runSeed), envStr("VERIF_TIER", "quick"), 0)
+		sc.Base().Seed = runSeed
+		res := p.Run(t, sc, NewRandomSource(sc.Base().Sched, runSeed), false)
+		fmt.Printf("oneseed: class=%q aborted=%q known=%v steps=%d msg=%s\n", res.Class, res.Aborted, res.Known, res.Steps, trunc(res.Message, 300))
+		if res.Class != "" {
+			att := attribute(t, p, sc, res.Trace, findings, nil)
+			fmt.Printf("oneseed: attributed to %d findings\n", len(att))
+			for _, f := range findings {
+				if fn := p.Triggers[f.Trigger]; fn != nil && f.Status == "open" {
+					cf, ok := fn(cloneScenario(p, sc))
+					if ok {
+						r2, _ := rerun(t, p, cf, res.Trace, false, false)
+						fmt.Printf("oneseed: without trigger %s alone: class=%q aborted=%q msg=%s\n", f.Trigger, r2.Class, r2.Aborted, trunc(r2.Message, 300))
+					}
+				}
+			}
+			st := &workerStats{Known: map[string]int{}, KnownWhat: map[string]string{}}
+			_ = st
+		}
 		return
 	}
 	seed := envU64("VERIF_SEED", 1)
